@@ -38,7 +38,7 @@ a = Bits(N, A); b = Bits(M, B); k = K
 exp = py_expected(%(name)r, %(form)r, N, A, B, K, M)
 try:
   r = %(impl)s
-  got = ('val', int(r._uint), r.nbits)
+  got = ('val', int(r._uint), r.nbits) if (r is not a and r is not b) else ('aliases an operand',)
   rng = 0 <= r._uint < 2**r.nbits
 except Exception as e:
   got = ('exc', type(e).__name__); rng = True
@@ -81,7 +81,9 @@ def item_bin(it):
 
   def run():
     a = sp.PB._new_valid_bits(n, sa); b = sp.PB._new_valid_bits(m, sb)
-    return {'r': eval(code, {'a': a, 'b': b, 'k': sk})}
+    r = eval(code, {'a': a, 'b': b, 'k': sk})
+    if r is a or r is b: raise AssertionError('the result aliases an operand (Bits values are mutable)')
+    return {'r': r}
 
   def replay(mdl, what):
     g = lambda v: mdl.eval(v, model_completion=True)
